@@ -169,4 +169,9 @@ theorem tr_t2vw (v0 v1 v2 v3 : V3 ℝ) (f00 f01 f10 f11 f20 f21 f30 f31 : ℝ) :
       Gen.TransferTri.t2vw_4, Gen.TransferTri.t2vw_5, Gen.TransferTri.t2vw_6, Gen.TransferTri.t2vw_7,
       Gen.Measures.areas_0, Gen.Measures.areas_1, Gen.Measures.areas_2, Gen.Measures.areas_3]
     ring
+
+/-! ### census of data-dependent decisions: the traced code took exactly the branches the model knows about -/
+theorem census_VertexMeasures_pcCount : Gen.VertexMeasures.pcCount = 4 := rfl
+theorem census_TransferTri_pcCount : Gen.TransferTri.pcCount = 0 := rfl
+
 end LapyVerif.Bridge
